@@ -252,12 +252,18 @@ class Repo:
         self.consulted.add(name)
         return self.modules[name]
 
-    def func(self, short, qualname):
+    def func(self, short, qualname, inline=False):
         m = self.module(short)
         if qualname not in m.functions:
             raise AnalysisError("anchor vanished: function %s in %s"
                                 % (qualname, m.relpath))
-        return m.functions[qualname]
+        f = m.functions[qualname]
+        if inline:
+            cache = self.__dict__.setdefault("_inline_cache", {})
+            if f.key not in cache:
+                cache[f.key] = inline_view(f)
+            return cache[f.key]
+        return f
 
     def has_func(self, short, qualname):
         m = self.module(short)
@@ -744,3 +750,332 @@ def raised_names(stmts, module=None):
     elif isinstance(last, ast.If) and last.orelse:
         out += raised_names(last.body) + raised_names(last.orelse)
     return out
+
+
+def helper_closure(fn, depth=2):
+    """fn plus the helpers it calls: methods of its class called through
+    self, functions of its module called by bare name, and functions nested
+    in it (transitively, bounded)."""
+    out, seen = [fn], {fn.key}
+    frontier = [fn]
+    for _ in range(depth):
+        nxt = []
+        for f in frontier:
+            for c in calls_in(f.node):
+                callee = resolve_local_call(f, c)
+                if callee is not None and callee.key not in seen:
+                    seen.add(callee.key)
+                    out.append(callee)
+                    nxt.append(callee)
+        frontier = nxt
+    return out
+
+
+def resolve_local_call(fn, call):
+    f = call.func
+    m = fn.module
+    if isinstance(f, ast.Attribute) and isinstance(f.value, ast.Name) and \
+            f.value.id in ("self", "cls") and fn.cls is not None:
+        for c in m.repo.mro(fn.cls):
+            if f.attr in c.methods:
+                return c.methods[f.attr]
+        return None
+    if isinstance(f, ast.Name):
+        g = fn
+        while g is not None:
+            cand = m.functions.get(g.qualname + "." + f.id)
+            if cand is not None:
+                return cand
+            g = g.parent
+        return m.functions.get(f.id)
+    return None
+
+
+def nodes_passing(fn, pred, depth=2):
+    """CFG nodes of fn that satisfy `pred(call)` for some call in the
+    statement, or that call a local helper (same class / module / nested)
+    all of whose normal exits pass such a node."""
+    cfg = fn.cfg()
+    owner = enclosing_stmt_map(fn.node)
+    out = []
+    for c in calls_in(fn.node):
+        hit = pred(c)
+        if not hit and depth > 0:
+            h = resolve_local_call(fn, c)
+            if h is not None and h is not fn:
+                hn = nodes_passing(h, pred, depth - 1)
+                hcfg = h.cfg()
+                hit = bool(hn) and hcfg.every_path_passes(hcfg.entry,
+                                                          hcfg.exit, hn)
+        if hit:
+            st = owner.get(id(c))
+            n = cfg.node_of(st) if st is not None else None
+            if n is not None:
+                out.append(n)
+    return out
+
+
+# ---------------------------------------------------------------------
+# statement-level inlining of local helpers (analysis view only)
+# ---------------------------------------------------------------------
+import copy as _copy
+
+
+class _Rename(ast.NodeTransformer):
+    def __init__(self, table):
+        self.table = table
+
+    def visit_Name(self, node):
+        if node.id in self.table:
+            return ast.copy_location(ast.Name(id=self.table[node.id],
+                                              ctx=node.ctx), node)
+        return node
+
+    def visit_FunctionDef(self, node):
+        return node      # do not touch nested definitions
+
+    visit_Lambda = visit_FunctionDef
+
+
+def _inlinable(h):
+    """Helper whose only return (if any) is its last statement."""
+    body = h.node.body
+    rets = [n for n in walk_local(h.node, include_root=False)
+            if isinstance(n, ast.Return)]
+    if any(isinstance(n, (ast.Yield, ast.YieldFrom))
+           for n in walk_local(h.node, include_root=False)):
+        return False
+    if len(rets) > 1:
+        return False
+    if rets and rets[0] is not body[-1]:
+        return False
+    if h.node.args.vararg or h.node.args.kwarg:
+        return False
+    return True
+
+
+def inline_view(fn, depth=2, keep=()):
+    """A copy of fn in which statements that call an inlinable local helper
+    (`self.h(...)`, a module function, a nested function) as a whole
+    statement - `h(...)`, `x = h(...)`, `return h(...)` - are replaced by the
+    helper's body.  Used so that rules see through 'extract method'
+    refactorings.  Helper locals that would collide with the caller's names
+    are renamed."""
+    counter = [0]
+
+    def used_names(node):
+        return {n.id for n in ast.walk(node) if isinstance(n, ast.Name)} | \
+            {a.arg for a in ast.walk(node) if isinstance(a, ast.arg)}
+
+    def expand_stmt(owner_fn, st, caller_names, level):
+        call = None
+        kind = None
+        if isinstance(st, ast.Expr) and isinstance(st.value, ast.Call):
+            call, kind = st.value, "expr"
+        elif isinstance(st, ast.Assign) and isinstance(st.value, ast.Call):
+            call, kind = st.value, "assign"
+        elif isinstance(st, ast.Return) and isinstance(st.value, ast.Call):
+            call, kind = st.value, "return"
+        if call is None or level <= 0:
+            return None
+        h = resolve_local_call(owner_fn, call)
+        if h is None or h is owner_fn or not _inlinable(h) or \
+                h.qualname.split(".")[-1] in keep:
+            return None
+        if any(isinstance(a, ast.Starred) for a in call.args) or \
+                any(k.arg is None for k in call.keywords):
+            return None
+        a = h.node.args
+        params = [x.arg for x in a.posonlyargs + a.args]
+        if params and params[0] in ("self", "cls") and \
+                isinstance(call.func, ast.Attribute):
+            params = params[1:]
+        defaults = dict(zip(params[len(params) - len(a.defaults):], a.defaults))
+        bound = {}
+        for p, v in zip(params, call.args):
+            bound[p] = v
+        for k in call.keywords:
+            bound[k.arg] = k.value
+        for p in params:
+            if p not in bound:
+                if p in defaults:
+                    bound[p] = defaults[p]
+                else:
+                    return None
+        counter[0] += 1
+        tag = "__h%d" % counter[0]
+        body = [_copy.deepcopy(s) for s in h.node.body
+                if not (isinstance(s, ast.Expr)
+                        and isinstance(s.value, ast.Constant))]
+        # helper locals
+        hlocals = set(params)
+        for n in body:
+            for x in ast.walk(n):
+                if isinstance(x, ast.Name) and isinstance(x.ctx, ast.Store):
+                    hlocals.add(x.id)
+        rename = {}
+        for name in hlocals:
+            same_arg = name in bound and isinstance(bound[name], ast.Name) \
+                and bound[name].id == name
+            if name in caller_names and not same_arg:
+                rename[name] = name + tag
+        pre = []
+        for p in params:
+            v = bound[p]
+            if isinstance(v, ast.Name) and v.id == p:
+                continue
+            tgt = ast.Name(id=rename.get(p, p), ctx=ast.Store())
+            pre.append(ast.copy_location(
+                ast.Assign(targets=[tgt], value=_copy.deepcopy(v)), st))
+        body = [_Rename(rename).visit(s) for s in body]
+        out = pre + body
+        if out and isinstance(out[-1], ast.Return):
+            r = out.pop()
+            if kind == "assign" and r.value is not None:
+                out.append(ast.copy_location(
+                    ast.Assign(targets=_copy.deepcopy(st.targets),
+                               value=r.value), st))
+            elif kind == "return":
+                out.append(ast.copy_location(ast.Return(value=r.value), st))
+            elif r.value is not None and kind == "expr":
+                out.append(ast.copy_location(ast.Expr(value=r.value), st))
+        elif kind == "assign":
+            out.append(ast.copy_location(
+                ast.Assign(targets=_copy.deepcopy(st.targets),
+                           value=ast.Constant(value=None)), st))
+        for s in out:
+            ast.fix_missing_locations(s)
+        # recursively expand inside the inlined body
+        return expand_block(h, out, caller_names | hlocals |
+                            set(rename.values()), level - 1)
+
+    def expand_block(owner_fn, stmts, caller_names, level):
+        res = []
+        for st in stmts:
+            rep = expand_stmt(owner_fn, st, caller_names, level)
+            if rep is not None:
+                res.extend(rep)
+                continue
+            if not isinstance(st, (ast.FunctionDef, ast.ClassDef)):
+                for field in ("body", "orelse", "finalbody"):
+                    sub = getattr(st, field, None)
+                    if isinstance(sub, list) and sub and \
+                            isinstance(sub[0], ast.stmt):
+                        setattr(st, field, expand_block(owner_fn, sub,
+                                                        caller_names, level))
+                for hdl in getattr(st, "handlers", []) or []:
+                    hdl.body = expand_block(owner_fn, hdl.body, caller_names,
+                                            level)
+            res.append(st)
+        return res
+
+    node = _copy.deepcopy(fn.node)
+    node.body = expand_block(fn, node.body, used_names(fn.node), depth)
+    ast.fix_missing_locations(node)
+    # expression-level: calls to straight-line helpers (`return <expr>` after
+    # single assignments) are replaced by the expression they compute
+    from .dataflow import inline_helper_call
+
+    class _ExprInline(ast.NodeTransformer):
+        def __init__(self):
+            self.level = 0
+
+        def visit_FunctionDef(self, n):
+            if n is node:
+                self.generic_visit(n)
+            return n
+
+        def visit_Call(self, call):
+            self.generic_visit(call)
+            if self.level >= depth:
+                return call
+            h = resolve_local_call(fn, call)
+            if h is None or h is fn or \
+                    h.qualname.split(".")[-1] in keep or h.node.args.vararg or \
+                    h.node.args.kwarg or any(
+                        isinstance(a, ast.Starred) for a in call.args):
+                return call
+            if (dotted(call.func) or "").split(".")[-1] == "ceil_div":
+                return call
+            try:
+                inl = inline_helper_call(
+                    call, h.node,
+                    drop_self=isinstance(call.func, ast.Attribute))
+            except Exception:
+                inl = None
+            if inl is None:
+                return call
+            inl = _copy.deepcopy(inl)
+            self.level += 1
+            try:
+                inl = self.visit(inl)
+            finally:
+                self.level -= 1
+            return ast.copy_location(inl, call)
+
+    _ExprInline().visit(node)
+    ast.fix_missing_locations(node)
+    view = Function(fn.module, fn.qualname, node, cls=fn.cls, parent=fn.parent)
+    view.inlined_from = fn
+    return view
+
+
+# ---------------------------------------------------------------------
+# refactoring-tolerant text of a function (for template rules)
+# ---------------------------------------------------------------------
+def _const_table(module):
+    tab = {}
+    for name, val in module.constants.items():
+        if isinstance(val, ast.Constant) and isinstance(
+                val.value, (str, int, float, bytes)) and \
+                not isinstance(val.value, bool):
+            tab[name] = val
+        elif isinstance(val, (ast.Tuple,)) and val.elts and all(
+                isinstance(e, ast.Constant) for e in val.elts):
+            tab[name] = val
+    return tab
+
+
+class _ConstSubst(ast.NodeTransformer):
+    def __init__(self, table):
+        self.table = table
+
+    def visit_Name(self, node):
+        if isinstance(node.ctx, ast.Load) and node.id in self.table:
+            return _copy.deepcopy(self.table[node.id])
+        return node
+
+
+def cnorm(module, node):
+    """norm() with the module's simple literal constants substituted for
+    their names (`_GZ_SUFFIX` -> '.gz')."""
+    tab = _const_table(module)
+    if not tab:
+        return norm(node)
+    new = _ConstSubst(tab).visit(_copy.deepcopy(node))
+    ast.fix_missing_locations(new)
+    return norm(new)
+
+
+def ftext(fn):
+    """Text of a function for template matching: the function as written
+    plus the same function with local helpers inlined, both with module
+    constants substituted.  A template found in either form counts."""
+    cache = fn.module.repo.__dict__.setdefault("_ftext_cache", {})
+    key = getattr(fn, "inlined_from", fn).key
+    if key not in cache:
+        base = getattr(fn, "inlined_from", fn)
+        try:
+            inl = inline_view(base)
+            t2 = cnorm(base.module, inl.node)
+        except Exception:          # inlining is best effort
+            t2 = ""
+        cache[key] = cnorm(base.module, base.node) + "\n#inlined#\n" + t2
+    return cache[key]
+
+
+def closure_text(fn, depth=2):
+    """ftext of fn and of every local helper it reaches (presence-type
+    templates: the construct may live in an extracted helper)."""
+    base = getattr(fn, "inlined_from", fn)
+    return "\n#helper#\n".join(ftext(h) for h in helper_closure(base, depth))
